@@ -7,7 +7,10 @@
    flt : FNone | FPhase k e | FDel k e | FFin k e   -- the k-th syscall of that stage raises errno e
    o_stage : SPhase (raised inside the try-block, rollback ran) | SDel (raised in apply_deletions)
              | SFin (raised in finalize) | SDone
-   o_dirty = true iff a performed rename replaced an existing target or a chmod was performed. *)
+   o_dirty = true iff a performed rename replaced an existing target (os.rename does that silently;
+             excluded for real transforms by the conflict check, see the last theorem).
+   The try-block is: all renames (_apply_removals, first loop of _apply_insertions), then the executable
+   bits (second loop, since 54fc383), whose old modes are put back when a later step fails. *)
 From Coq Require Import List String Bool NArith.
 From BV Require Import Lib.FSFault13 Model.TransformApply13 Theory.TransformApply13.
 Import ListNotations.
@@ -15,8 +18,9 @@ Import ListNotations.
 (* A failure before the transform is committed restores every file and directory exactly
    (the whole disk, limbo included) and leaves the inventory unchanged: for EVERY transform
    state x, every fault, every well-formed disk.  Rollback is the exact inverse of the
-   journaled prefix.  Guard (executable, computed by the model and by the harness):
-   no replaced target, no chmod performed -- see the two _refuted theorems below. *)
+   journaled prefix, executable bits included (mode journal).  Guard (executable, computed by the
+   model and by the harness): no performed rename replaced an existing target -- see
+   C13_clobbering_rename_not_restored_refuted. *)
 Theorem C13_fault_before_commit_restores_guarded :
   forall x flt f0 inv0,
     wf f0 ->
@@ -32,7 +36,7 @@ Print Assumptions C13_fault_before_commit_restores_guarded.
    purpose by _apply_removals/_apply_insertions: "dangling inventory id") *)
 Theorem C13_fault_before_commit_raises :
   forall x k e f0 inv0,
-    e <> ENOENT -> k < List.length (g_phase (apply_prog x)) ->
+    e <> ENOENT -> k < List.length (g_phase (apply_prog x)) + List.length (g_chmods (apply_prog x)) ->
     o_stage (apply_model x (FPhase k e) f0 inv0) = SPhase.
 Proof. intros x k e f0 inv0. exact (phase_fault_raises true (apply_prog x) k e f0 inv0). Qed.
 Print Assumptions C13_fault_before_commit_raises.
@@ -105,20 +109,17 @@ Proof.
 Qed.
 Print Assumptions C13_old_order_refuted.
 
-(* the guard is needed, part 1: _set_executability is not journaled, so an executable-bit
-   change on a file that stays in the tree survives the rollback *)
-Theorem C13_exec_change_not_rolled_back_refuted :
-  exists x f0 inv0 k e,
-    wf f0 /\ o_stage (apply_model x (FPhase k e) f0 inv0) = SPhase /\
-    o_fs (apply_model x (FPhase k e) f0 inv0) <> f0.
-Proof.
-  exists c_x, c_fs, [[]; ["a"%string]], 1, EIO.
-  destruct exec_change_witness as (H1 & H2 & _ & H4 & _).
-  split; [exact H1|]. split; [exact H2 | exact H4].
-Qed.
-Print Assumptions C13_exec_change_not_rolled_back_refuted.
+(* executable bits are rolled back too (the former finding C13-exec-bit-not-rolled-back, repaired by
+   54fc383): rename z into place, chmod a, chmod z raises => a has its old mode again, z is back in
+   limbo, the disk is exactly the disk before *)
+Theorem C13_exec_change_rolled_back_example :
+  let o := apply_model c_x (FPhase 2 EIO) c_fs [[]; ["a"%string]] in
+  wf c_fs /\ o_stage o = SPhase /\ o_dirty o = false /\ List.length (o_trace o) = 5 /\ o_fs o = c_fs /\
+  lookup (o_fs (apply_model c_x FNone c_fs [[]; ["a"%string]])) ["a"%string] = Some (File [65%N] true).
+Proof. exact exec_change_restored_witness. Qed.
+Print Assumptions C13_exec_change_rolled_back_example.
 
-(* the guard is needed, part 2 (unreachable through apply unless the conflict check is skipped
+(* the guard is needed (unreachable through apply unless the conflict check is skipped
    or the tree changes concurrently): os.rename silently replaces an existing file *)
 Theorem C13_clobbering_rename_not_restored_refuted :
   exists g f0,
